@@ -55,7 +55,7 @@ func raceRunMain(f flags) int {
 			}
 		}
 	}
-	fmt.Printf("RACEDONE worlds=%d mismatches=%d\n", worlds, mismatches)
+	fmt.Printf("RACEDONE worlds=%d mismatches=%d skipped=%d\n", worlds, mismatches, raceSkipped)
 	if mismatches > 0 {
 		return 3
 	}
